@@ -57,6 +57,45 @@ def _rows(repo):
     return rows
 
 
+SCHED_DURS = [[7, 13, 4], [22, 9, 4], [5, 28, 26, 1], [7, 13, 21, 4], [22, 3, 20, 2], [12, 11, 3, 29, 6]]
+
+
+def _schedule_rows(repo):
+    """the K-slot schedule, observed: requests that all arrive together on sessions with
+    `slots` = 1..3 and a throttle sleep of 0 / 9 s; for each request the instant at which its
+    handler reached its outcome, or the processing deadline if it was answered 'server busy'
+    instead (one of the requests never ends by itself)"""
+    from harness import c03 as H
+    rows = []
+    for slots in (1, 2, 3):
+        for throttle in (0, 9):
+            for vi, durs in enumerate(SCHED_DURS):
+                never = (slots + vi) % len(durs) if vi % 2 else None
+                items = [('R', ('t',) if i == never else ('v', i), d) for i, d in enumerate(durs)]
+                case = H.mk(items, conc=slots, throttle=throttle)
+                if not H.no_ties(case):
+                    continue
+                obs = H.run_case(repo, case)
+                times = []
+                for i in range(len(items)):
+                    rec = obs['hlog'].get(i)
+                    rep = obs['replies'].get(i)
+                    if rec and rec[1] is not None and abs(rec[1] - round(rec[1])) < 1e-6:
+                        times.append((int(round(rec[1])), i))
+                    elif rep is not None and H.canon_reply(rep).startswith(f'E{H_busy(repo)}:'):
+                        times.append((H.P, i))
+                    else:
+                        times.append((999999, i))
+                rows.append({'slots': slots, 'throttle': throttle,
+                             'items': [[d, i == never] for i, d in enumerate(durs)],
+                             'completions': [[i, t] for t, i in sorted(times)]})
+    return rows
+
+
+def H_busy(repo):
+    return common.fresh_import(repo, 'aiorpcx.jsonrpc').JSONRPC.SERVER_BUSY
+
+
 def _base(repo):
     sess = common.fresh_import(repo, 'aiorpcx.session')
     return int(sess.SessionBase.error_base_cost)
@@ -70,6 +109,7 @@ def extract(repo):
                 'excessive': jr.JSONRPC.EXCESSIVE_RESOURCE_USAGE,
                 'base': int(sess.SessionBase.error_base_cost)},
         'table': _rows(repo),
+        'schedule': _schedule_rows(repo),
         'fingerprints': common.fingerprints(repo, {
             'aiorpcx/session.py': ['RPCSession._throttled_request', 'SessionBase.process_messages',
                                    'SessionBase._process_messages', 'SessionBase._bump_errors',
@@ -79,6 +119,11 @@ def extract(repo):
             'aiorpcx/jsonrpc.py': ['JSONRPC.encode_payload', 'JSONRPCConnection._send_result',
                                    'JSONRPCConnection._receive_request_batch']}),
     }
+
+
+def _P():
+    from harness import c03 as H
+    return H.P
 
 
 def lean_outcome(o):
@@ -143,4 +188,14 @@ def render(f):
         '/-- the behavioural ladder table: (is a request (else a notification), what the handler\n'
         '    did, what the real session was observed to do) -/\n'
         'def table : List (Bool × Outcome × Obs) := [\n' + '\n'.join(rows) + '\n]\n'
+        '/-- processing timeout of the probe sessions -/\n'
+        f'def probeDeadline : Nat := {_P()}\n'
+        '/-- the observed schedule: (slots, throttle sleep, [(handler duration, never ends)],\n'
+        '    [(request, instant of completion)] in order of completion) -/\n'
+        'def scheduleTable : List (Nat × Nat × List (Nat × Bool) × List (Nat × Nat)) := [\n'
+        + ',\n'.join(
+            f'  ({r["slots"]}, {r["throttle"]}, '
+            f'[{", ".join(f"({d}, {b(t)})" for d, t in r["items"])}], '
+            f'[{", ".join(f"({i}, {t})" for i, t in r["completions"])}])' for r in f['schedule'])
+        + '\n]\n'
         'end Aiorpcx.Facts.C03\n')
